@@ -155,6 +155,66 @@ proof fn lemma_gdedup<T>(s: Seq<T>)
 //@include ../common/limitsort.rs
 // the comparator closure of prepare's selection (by count, descending), replaced by name (R30); its text is pinned by hash
 pub struct CmpCounts;
+// the candidate list against the counters: from the counting invariants of `prepare` to its contract
+proof fn lemma_prepare_post(dict0: Map<[char; 3], Vec<usize>>, len0: int, qw: Seq<WordShape>, qc: Seq<char>, size: int, grams: Seq<[char; 3]>, counts: Seq<usize>, ps: Seq<int>, idx: Seq<int>, r: Seq<usize>)
+    requires counts.len() == len0, len0 >= 0,
+        forall|g: [char; 3]| grams.contains(g) <==> has_gram(qw, qc, g@),
+        forall|j: int| 0 <= j < len0 && #[trigger] counts[j] > 0 ==> exists|t: int| 0 <= t < grams.len() && #[trigger] posted(dict0, grams[t], j),
+        forall|t: int, j: int| 0 <= t < grams.len() && 0 <= j < len0 && #[trigger] posted(dict0, grams[t], j) ==> counts[j] > 0,
+        forall|m: int| 0 <= m < ps.len() ==> 0 <= #[trigger] ps[m] < len0 && counts[ps[m]] > 0,
+        forall|a: int, b: int| 0 <= a < b < ps.len() ==> #[trigger] ps[a] < #[trigger] ps[b],
+        forall|j: int| 0 <= j < len0 && counts[j] > 0 ==> exists|m: int| 0 <= m < ps.len() && #[trigger] ps[m] == j,
+        idx.len() == r.len(), idx.no_duplicates(), forall|k: int| 0 <= k < r.len() ==> 0 <= #[trigger] idx[k] < ps.len() && r[k] as int == ps[idx[k]],
+        r.len() == (if ps.len() < size * 10 { ps.len() as int } else { size * 10 }), size >= 0,
+        r.len() == ps.len() ==> forall|m: int| 0 <= m < ps.len() ==> idx.contains(m),
+    ensures prepare_post(dict0, len0, qw, qc, size, r),
+{
+    assert forall|j: int| 0 <= j < len0 implies (#[trigger] shares(dict0, qw, qc, j) <==> counts[j] > 0) by {
+        if shares(dict0, qw, qc, j) {
+            let g = choose|g: [char; 3]| has_gram(qw, qc, g@) && #[trigger] posted(dict0, g, j);
+            assert(grams.contains(g));
+            let t = choose|t: int| 0 <= t < grams.len() && grams[t] == g;
+            assert(posted(dict0, grams[t], j));
+        }
+        if counts[j] > 0 {
+            let t = choose|t: int| 0 <= t < grams.len() && #[trigger] posted(dict0, grams[t], j);
+            assert(grams.contains(grams[t]));
+            assert(has_gram(qw, qc, grams[t]@));
+        }
+    }
+    assert forall|k: int| 0 <= k < r.len() implies #[trigger] r[k] < len0 && shares(dict0, qw, qc, r[k] as int) by { assert(counts[ps[idx[k]]] > 0); }
+    assert forall|a: int, b: int| 0 <= a < r.len() && 0 <= b < r.len() && a != b implies r[a] != r[b] by {
+        assert(idx[a] != idx[b]);
+        if idx[a] < idx[b] { assert(ps[idx[a]] < ps[idx[b]]); } else { assert(ps[idx[b]] < ps[idx[a]]); }
+    }
+    let ss = share_set(dict0, len0, qw, qc);
+    assert(ps.no_duplicates()) by {
+        assert forall|a: int, b: int| 0 <= a < ps.len() && 0 <= b < ps.len() && a != b implies ps[a] != ps[b] by { if a < b { assert(ps[a] < ps[b]); } else { assert(ps[b] < ps[a]); } }
+    }
+    assert(ps.to_set() =~= ss) by {
+        assert forall|j: int| ps.to_set().contains(j) <==> ss.contains(j) by {
+            if ps.to_set().contains(j) { let m = choose|m: int| 0 <= m < ps.len() && ps[m] == j; assert(counts[ps[m]] > 0); }
+            if ss.contains(j) { assert(counts[j] > 0); let m = choose|m: int| 0 <= m < ps.len() && #[trigger] ps[m] == j; assert(ps.contains(j)); }
+        }
+    }
+    ps.unique_seq_to_set();
+    assert(ss.len() == ps.len());
+    // |ps| <= len0: strictly increasing positions below len0
+    assert(ps.len() <= len0) by {
+        vstd::set_lib::lemma_int_range(0, len0);
+        assert(ss.subset_of(vstd::set_lib::set_int_range(0, len0)));
+        vstd::set_lib::lemma_len_subset(ss, vstd::set_lib::set_int_range(0, len0));
+    }
+    if r.len() == ps.len() {
+        assert forall|j: int| 0 <= j < len0 && #[trigger] shares(dict0, qw, qc, j) implies r.contains(j as usize) by {
+            assert(counts[j] > 0);
+            let m = choose|m: int| 0 <= m < ps.len() && #[trigger] ps[m] == j;
+            assert(idx.contains(m));
+            let k = choose|k: int| 0 <= k < idx.len() && idx[k] == m;
+            assert(r[k] as int == j);
+        }
+    }
+}
 // @item rust/core/src/store/trigram_index.rs :: struct TrigramIndex
 pub struct TrigramIndex {
     pub len: usize,
@@ -259,6 +319,7 @@ impl TrigramIndex {
         if query.words.len() == 0 {
             proof {
                 assert forall|j: int| 0 <= j < len0 && #[trigger] shares(dict0, query.words@, query.chars@, j) implies false by {}
+                assert(share_set(dict0, len0, query.words@, query.chars@) =~= Set::<int>::empty());
             }
             return Vec::new();
         }
@@ -369,32 +430,17 @@ impl TrigramIndex {
         }
         proof {
             let r = __out0@;
-            assert forall|k: int| 0 <= k < r.len() implies #[trigger] r[k] < len0 && shares(dict0, qw, qc, r[k] as int) by {
-                assert(r[k] == items[idx[k]].0);
-                let j = r[k] as int;
-                assert(counts@[j] > 0);
-                let t = choose|t: int| 0 <= t < grams@.len() && #[trigger] posted(dict0, grams@[t], j);
-                assert(grams@.contains(grams@[t]));
-                assert(has_gram(qw, qc, grams@[t]@));
-            }
-            assert forall|a: int, b: int| 0 <= a < r.len() && 0 <= b < r.len() && a != b implies r[a] != r[b] by {
-                assert(idx[a] != idx[b]);
-                if idx[a] < idx[b] { assert(items[idx[a]].0 < items[idx[b]].0); } else { assert(items[idx[b]].0 < items[idx[a]].0); }
-            }
-            if len0 <= size * 10 {
+            let ps = Seq::new(items.len(), |m: int| items[m].0 as int);
+            assert forall|k: int| 0 <= k < r.len() implies 0 <= #[trigger] idx[k] < ps.len() && r[k] as int == ps[idx[k]] by { assert(r[k] == items[idx[k]].0); }
+            if r.len() == ps.len() {
                 lemma_selection_full(__sel0@, items, idx);
-                assert forall|j: int| 0 <= j < len0 && #[trigger] shares(dict0, qw, qc, j) implies r.contains(j as usize) by {
-                    let g = choose|g: [char; 3]| has_gram(qw, qc, g@) && #[trigger] posted(dict0, g, j);
-                    assert(grams@.contains(g));
-                    let t = choose|t: int| 0 <= t < grams@.len() && grams@[t] == g;
-                    assert(posted(dict0, grams@[t], j));
-                    assert(counts@[j] > 0);
-                    let m = choose|m: int| 0 <= m < items.len() && (#[trigger] items[m]).0 == j;
-                    assert(__sel0@.contains(items[m]));
-                    let k = choose|k: int| 0 <= k < __sel0@.len() && __sel0@[k] == items[m];
-                    assert(r[k] == j as usize);
-                }
+                assert forall|m: int| 0 <= m < ps.len() implies idx.contains(m) by { assert(__sel0@.contains(items[m])); }
             }
+            assert forall|j: int| 0 <= j < len0 && counts@[j] > 0 implies exists|m: int| 0 <= m < ps.len() && #[trigger] ps[m] == j by {
+                let m = choose|m: int| 0 <= m < items.len() && (#[trigger] items[m]).0 == j;
+                assert(ps[m] == j);
+            }
+            lemma_prepare_post(dict0, len0, qw, qc, size as int, grams@, counts@, ps, idx, r);
         }
         __out0
     }
